@@ -25,6 +25,29 @@ CHECKS = {
              note=T_BASE + '; SHA-256 uninterpreted',
              technique='contracts on the real functions, symbolic execution over all paths with abstract children, exhaustive finite case split, z3',
              design_ref='DESIGN.md §5 C02'),
+ 'C09': dict(category='other',
+             text='Deductive per-function contracts on the real code: key admission for ALL integers (accepted iff 0 <= k < 2^size, stored '
+                  'under exactly k) and normalisation of every key form (bytes, bit text, Address = 267-bit addr_std image, hashed text, '
+                  'key serializer); key -> n-bit text; label writer emits exactly the canonical encoding and the reader inverts every '
+                  'encoding (symbolic label bits, symbolic remaining key length); edge/node level with recursive calls replaced by their '
+                  'contract; optional-dictionary wrappers.  Tree construction (build_tree/fork_map/find_common_prefix recurse over SETS '
+                  'of keys: sorted-LCP, partition by next bit) is beyond SMT and is a BOUNDED stand-in: exhaustive for key widths 1..3 '
+                  '(4 in the thorough tier) over every key set and every insertion order of up to 4 keys, random up to width 900 / 200 '
+                  'keys.  Level other: proof for the per-function part, bounded for the tree.',
+             note=T_BASE + '; the bounded tree part is never counted as proved',
+             technique='contracts on the real functions + symbolic execution + z3 for the per-function part; exhaustive/random native enumeration (labelled bounded) for tree construction',
+             design_ref='DESIGN.md §5 C09'),
+ 'C10': dict(category='other',
+             text='Deductive: label-kind selection proved for ALL (label length n, remaining key length m, all-same-bit) triples with '
+                  '0 <= n <= m <= 1023 symbolically (is_same replaced by its contract, which is proved for lengths 0..12 with symbolic bits); '
+                  'the three label writers emit exactly hml_short/hml_long/hml_same; deserialize_hml accepts every spec-valid encoding of '
+                  'every kind (canonical or not) and leaves exactly the rest; augmented node order (leaf: extra then value; fork: left, '
+                  'right, then extra); every parser returns no leaves and raises nothing on exotic (pruned) subtrees at any remaining key '
+                  'length.  Whole-tree canonicity (hash == reference Patricia tree) and parsing of foreign non-canonical / pruned trees are '
+                  'BOUNDED stand-ins against vf/spec/hashmap.py (exhaustive widths 1..3, random up to width 900).',
+             note=T_BASE + '; the bounded whole-tree part is never counted as proved',
+             technique='contracts on the real functions + symbolic execution + z3 (LIA) for the per-function part; native enumeration against an independent Hashmap specification (labelled bounded) for whole trees',
+             design_ref='DESIGN.md §5 C10'),
  'C18': dict(category='proof',
              text='Unbounded proof for every byte string: VCs generated from the AST of the real crc16/crc32c (tables, loop body, init, '
                   'final xor, byte order) and discharged by z3 in the bit-vector theory: each table entry, and the loop body for ALL '
